@@ -253,7 +253,26 @@ class InjEnv(Env):
                 passthrough_ok &= v == ()
             elif p["kind"] == "VarKw":
                 passthrough_ok &= v == {"extra_kw": 1}
-        return {"k": "Call", "r": "Body", "bound": bound, "passthrough_ok": passthrough_ok}
+        # an optional parameter that received None: the explicit optional lookup, made right now in the same
+        # context, must not find anything either (it changes nothing when it finds nothing)
+        explicit_found = []
+        for p, ms in zip(spec["params"], op["model_sig"]):
+            if p["default"].startswith("dep:") and seen[p["name"]] is None and isinstance(ms["ann"], (list, tuple)) \
+                    and ms["ann"][0] == "AOpt":
+                t, name = ms["ann"][1], ms["default"][1]
+
+                async def job(t=t, name=name):
+                    try:
+                        if spec["coro"]:
+                            return await h.ctx.get_resource(impl_res.ty_obj(t), name, optional=True)
+                        return h.ctx.get_resource_nowait(impl_res.ty_obj(t), name, optional=True)
+                    except Exception:  # noqa
+                        return None
+                kind2, val2 = await run_job()
+                if kind2 == "ok" and val2 is not None:
+                    explicit_found.append([t, name, val_json(val2)])
+        return {"k": "Call", "r": "Body", "bound": bound, "passthrough_ok": passthrough_ok,
+                "explicit_found": explicit_found}
 
     def next_op(self):
         r = self.r
